@@ -197,7 +197,7 @@ func initSched() {
 	var seq []kv
 	for name, v := range rf.Env {
 		n := strings.Trim(name, "|")
-		if strings.HasPrefix(n, "sched!") {
+		if strings.HasPrefix(n, "sched!") && os.Getenv("VRT_NOBATON") == "" {
 			var k int
 			fmt.Sscanf(n[len("sched!"):], "%d", &k)
 			seq = append(seq, kv{k, int(v)})
